@@ -286,15 +286,24 @@ defvjp(
     lambda ans, c, x=None, y=None: unbroadcast_f(x, lambda g: anp.where(c, g, anp.zeros(g.shape))),
     lambda ans, c, x=None, y=None: unbroadcast_f(y, lambda g: anp.where(c, anp.zeros(g.shape), g)),
 )
-defvjp(
-    anp.cross,
-    lambda ans, a, b, axisa=-1, axisb=-1, axisc=-1, axis=None: unbroadcast_f(
-        a, lambda g: anp.cross(b, g, axisb, axisc, axisa, axis)
-    ),
-    lambda ans, a, b, axisa=-1, axisb=-1, axisc=-1, axis=None: unbroadcast_f(
-        b, lambda g: anp.cross(g, a, axisc, axisa, axisb, axis)
-    ),
-)
+def grad_cross(argnum, ans, a, b, axisa=-1, axisb=-1, axisc=-1, axis=None):
+    if axis is not None:
+        axisa = axisb = axisc = axis
+    x, x_axis = (a, axisa) if argnum == 0 else (b, axisb)
+    # cross broadcasts the batch axes of its operands with their vector axes moved to the end: reduce the cotangent in
+    # that layout (vector axis last), then put the vector axis back where the operand has it
+    batch_first = list(anp.shape(x))
+    batch_first.append(batch_first.pop(x_axis))
+    meta = (tuple(batch_first), anp.ndim(x), anp.result_type(x), anp.iscomplexobj(x))
+
+    def vjp(g):
+        adjoint = anp.cross(b, g, axisb, axisc, -1) if argnum == 0 else anp.cross(g, a, axisc, axisa, -1)
+        return anp.moveaxis(unbroadcast(adjoint, meta), -1, x_axis)
+
+    return vjp
+
+
+defvjp(anp.cross, partial(grad_cross, 0), partial(grad_cross, 1))
 defvjp(
     anp.linspace,
     lambda ans, start, stop, num: unbroadcast_f(
